@@ -16,6 +16,7 @@ import RbV.Thm.GenSrcPwCustom
 import RbV.Thm.GenSrcPwKeeps
 import RbV.Thm.GenSrcPwColumn
 import RbV.Thm.GenSrcPwColStep
+import RbV.Thm.GenSrcPwColGlue
 /-!
 # C01 — pairwise alignment is optimal and its reported path achieves the reported score
 
@@ -771,6 +772,46 @@ theorem column_block_model_is_mirror (sc : Sc) (cl : Clip) (x y : List Nat) (j :
     GenSrcPwColStep.rowJ0T GenSrcPwCustom.pinned sc cl x.length y.length j prev0 = RbV.Model.PairwiseFill.rowJ0C sc cl x y j prev0 ∧
     GenSrcPwColStep.xclipO sc cl j = RbV.Model.PairwiseFill.xclipC sc cl j :=
   ⟨GenSrcPwColStep.rowJ0T_pinned sc cl x y j prev0, GenSrcPwColStep.xclipO_eq sc cl j⟩
+
+/-- **`custom_fill_source_eq_model_partial` (main loop): the whole outer loop `for j in 1..=n` of the translated `Aligner::custom` =
+the columns of the checked-`i32` mirror, for every tie-break, with an admissible S-code chooser.**
+There is a chooser `sCode` with `SCodeOk T sCode` such that from any state that holds the finished column `j` and the cells /
+`Lx` entries of all columns `≤ j`, with `Lx[j'] = 0` for the columns not yet started (`Outer a m n j cols` — for `j = 0`: what the
+column-0 initialisation has to establish), the translated loop over the columns `j + 1 ..= n` panics exactly when a column
+`colStepT` of the mirror is `none` (an `i32` overflow in its `i = 0` block `rowJ0T`, in `xclipC` or in a cell `stepJS`), and otherwise
+ends in a state that holds the last column's `S/I/D`, `Sn`, `Ly` and **every** column's bit-packed traceback cells and `Lx` entry
+(`Outer a' m n n all`, `all = colsT …` the list of all columns), `scoring` untouched.  Built from
+`column_block_source_eq_model_partial` (the `i = 0` block, reset loop, `xclip_score`), the glue `startCol_inv` (the state after the
+block satisfies the inner-loop invariant `ColInv … 0` w.r.t. the finished previous column), `custom_fill_source_eq_model_partial`
+(the inner loop) and `stepJS_last` (row `m`: the cell is the register).
+**Still missing for `custom_fill_source_eq_model`**: `Outer a m n 0 [col0]` after the translated column-0 initialisation
+(`custom_for1/2` after `Traceback::init`), the two post-loops (`custom_for6/7`), and `colsT` with the pinned tie-breaks = `colsC`
+(`rowJ0T_pinned`, `xclipO_eq` are proved; the cells' values by `stepJS`'s definition, their codes by the soft module). -/
+theorem custom_main_loop_source_eq_model_partial (w : Nat → Nat → Int) (T : GenSrcPwCustom.Ties) :
+    ∃ sCode : GenSrcPwCustom.SCodeFn, GenSrcPwCustom.SCodeOk T sCode ∧
+    ∀ (x y : List Nat) (m n : Nat) (hx : x.length = m) (hy : y.length = n) (k j : Nat) (a : RbV.Gen.SrcPwTypes.Aligner)
+      (cols : List (List RbV.Model.PairwiseFill.Row)) (ho : GenSrcPwColGlue.Outer a m n j cols) (hjk : j + k = n),
+      match GenSrcPwColGlue.colsT (fun j pc => GenSrcPwColGlue.colStepT T sCode (GenSrcPwCustom.scOf w a) (GenSrcPwCustom.clOf a)
+          x m n j (y.getD (j - 1) 0) pc) k j cols with
+      | none => List.foldlM (RbV.Gen.SrcPwCustom.custom_for3 w T.iT T.dT T.snT T.sn0T x y m n) a (List.range' (j + 1) k) = Res.panic
+      | some all => ∃ a', List.foldlM (RbV.Gen.SrcPwCustom.custom_for3 w T.iT T.dT T.snT T.sn0T x y m n) a
+            (List.range' (j + 1) k) = Res.ok a' ∧ GenSrcPwColGlue.Outer a' m n n all ∧ a'.scoring = a.scoring := by
+  obtain ⟨sCode, hok, hcell⟩ := GenSrcPwCustom.cell_update_any_order w T
+  exact ⟨sCode, hok, fun x y m n hx hy k j a cols ho hjk =>
+    GenSrcPwColGlue.outer_loop w T sCode hcell x y m n _ _ hx hy k j a cols ho hjk rfl rfl⟩
+
+/-- one iteration of that loop: from the finished column `j − 1` (`ColDone`) with `Lx[j] = 0` to the finished column `j` -/
+theorem column_step_source_eq_model (w : Nat → Nat → Int) (T : GenSrcPwCustom.Ties) (sCode : GenSrcPwCustom.SCodeFn)
+    (hcell : GenSrcPwCustom.CellEq w T sCode) (a : RbV.Gen.SrcPwTypes.Aligner) (x y : List Nat) (m n j : Nat)
+    (pc : List RbV.Model.PairwiseFill.Row) (oc : Nat → Nat → RbV.Gen.SrcPwTypes.TracebackCell) (olx : Nat → Nat)
+    (hdone : GenSrcPwColGlue.ColDone a m n (j - 1) pc oc olx) (hx : x.length = m) (hy : y.length = n) (hj : 1 ≤ j) (hjn : j ≤ n)
+    (hLx0 : a.Lx.getD j 0 = 0) :
+    match GenSrcPwColGlue.colStepT T sCode (GenSrcPwCustom.scOf w a) (GenSrcPwCustom.clOf a) x m n j (y.getD (j - 1) 0) pc with
+    | none => RbV.Gen.SrcPwCustom.custom_for3 w T.iT T.dT T.snT T.sn0T x y m n a j = Res.panic
+    | some col => ∃ a', RbV.Gen.SrcPwCustom.custom_for3 w T.iT T.dT T.snT T.sn0T x y m n a j = Res.ok a' ∧
+        GenSrcPwColGlue.ColDone a' m n j col (fun k j' => GenSrcPwCustom.cellAt a k j') (fun j' => a.Lx.getD j' 0) ∧
+        col.length = m + 1 ∧ a'.scoring = a.scoring :=
+  GenSrcPwColGlue.column_step w T sCode hcell a x y m n j pc oc olx hdone hx hy hj hjn hLx0
 
 end SourceText
 
